@@ -415,6 +415,10 @@ def main():
             "Producer outputs are written by the harness into the working directories (nothing is executed).",
             "Dynamic check: held on the pairs explored, not a proof.",
         ])
+    if not os.path.isfile(os.path.join(vlib.REPO_PY, "experiment", "model", "graph.py")):
+        # never let a missing VERIF_REPO fall back silently to whatever `experiment` is installed
+        c.note_inconclusive("VERIF_REPO=%s does not contain python/experiment/model/graph.py" % vlib.REPO)
+        sys.exit(c.finish())
     rp = vlib.load_replay(sys.argv)
     if rp is not None:
         wit = rp["witness"]
